@@ -31,7 +31,18 @@ def _cfg(tlc, names, doses, arity, nrows, ctls, mode, withsub, export):
                               "Ctls": set(ctls), "Mode": mode, "WithSub": withsub, "Export": export}, invariants=INVS)
 
 
+_LAYOUT = [0]
+
+
 def _screen(tn, td, sn, pn, ctl, tmap=None, smap=None):
+    # the memory layout of the caller's arrays is not part of their value: every third construction hands the names and doses over
+    # column-major (what `np.array([col_a, col_b]).T` or a DataFrame selection gives), every third only the names
+    _LAYOUT[0] += 1
+    if getattr(tn, "ndim", 1) == 2 and tn.shape[0] > 1 and tn.shape[1] > 1:
+        if _LAYOUT[0] % 3 == 1:
+            tn, td = np.asfortranarray(tn), np.asfortranarray(td)
+        elif _LAYOUT[0] % 3 == 2:
+            tn = np.asfortranarray(tn)
     return outcome(Screen, treatment_names=tn, treatment_doses=td, sample_names=sn, plate_names=pn,
                    control_treatment_name=ctl, treatment_mapping=tmap, sample_mapping=smap)
 
